@@ -627,6 +627,120 @@ def direct_validation(ctx):
             ctx.broken.append("harness: direct validation raised on %s" % label)
 
 
+
+# =======================================================================================
+# 3. certified evaluation: generated formulas vs outputs of the real solvers (Interval)
+# =======================================================================================
+
+EVAL_HDR = """From Coq Require Import Reals Lra.
+From Interval Require Import Tactic.
+From WG Require Import Lib.NumpySem.
+From GenC06 Require Import HydroAdmGen.
+Local Open Scope R_scope.
+%(defs)s
+Definition e0 : env := {| Tnucl := %(Tn)s;
+  pHighT := pH; pLowT := pL;
+  eHighT := fun T => T * dpH T - pH T; eLowT := fun T => T * dpL T - pL T;
+  wHighT := fun T => T * dpH T; wLowT := fun T => T * dpL T;
+  dpLowT := dpL; deLowT := fun T => T * ddpL T;
+  csqLowT := fun T => dpL T / (T * ddpL T); csqHighT := fun T => dpH T / (T * ddpH T) |}.
+Ltac ev :=
+  cbv beta iota zeta delta [deton_residual deton_ret matching_fixed deflag_ret_fixed vpvmAndvpovm
+    vJ_of_tm vpDerivNum fst snd Tnucl pHighT pLowT eHighT eLowT wHighT wLowT dpLowT deLowT
+    csqLowT csqHighT e0 pH dpH ddpH pL dpL ddpL];
+  repeat match goal with |- context [Req_EM_T ?x ?y] =>
+    destruct (Req_EM_T x y) as [E|E];
+    [exfalso; revert E; first [apply Rlt_not_eq; interval | apply Rgt_not_eq; interval]|] end;
+  cbv beta iota zeta delta [negb fst snd];
+  repeat match goal with |- context [Rmin ?a ?b] =>
+    first [rewrite (Rmin_left a b) by interval | rewrite (Rmin_right a b) by interval] end;
+  repeat match goal with |- context [Rmax ?a ?b] =>
+    first [rewrite (Rmax_left a b) by interval | rewrite (Rmax_right a b) by interval] end;
+  interval with (i_prec 80).
+"""
+
+
+def eos_coq_defs(case):
+    if case["eos"] == "2step":
+        aL, aH, mu = "(1/5)", "(1/10)", "(2/5)"
+        return (
+            "Definition pH (T : R) := T^4 + (%(aL)s - %(aH)s + %(aH)s * T^2 - %(mu)s)^2 - %(mu)s^2.\n"
+            "Definition dpH (T : R) := 4 * T^3 + 4 * %(aH)s * T * (%(aL)s - %(aH)s + %(aH)s * T^2 - %(mu)s).\n"
+            "Definition ddpH (T : R) := 12 * T^2 + 8 * %(aH)s^2 * T^2 + 4 * %(aH)s * (%(aL)s - %(aH)s + %(aH)s * T^2 - %(mu)s).\n"
+            "Definition pL (T : R) := T^4 + (%(aL)s * T^2 - %(mu)s)^2 - %(mu)s^2.\n"
+            "Definition dpL (T : R) := 4 * T^3 + 4 * %(aL)s * T * (%(aL)s * T^2 - %(mu)s).\n"
+            "Definition ddpL (T : R) := 12 * T^2 + 8 * %(aL)s^2 * T^2 + 4 * %(aL)s * (%(aL)s * T^2 - %(mu)s).\n"
+        ) % dict(aL=aL, aH=aH, mu=mu)
+    psi = pyrx.rlit(Fraction(str(case["psi"])))
+    return (
+        "Definition pH (T : R) := T^4 - (1 - %(psi)s).\n"
+        "Definition dpH (T : R) := 4 * T^3.\nDefinition ddpH (T : R) := 12 * T^2.\n"
+        "Definition pL (T : R) := %(psi)s * T^4.\nDefinition dpL (T : R) := 4 * %(psi)s * T^3.\n"
+        "Definition ddpL (T : R) := 12 * %(psi)s * T^2.\n") % dict(psi=psi)
+
+
+def certified_eval_files(ctx):
+    """Goals closed by the Interval tactic: the values returned by the real solvers are zeros
+    of the GENERATED residuals (hypothesis of the theorems, validated inside Coq), and the
+    generated `*_ret` definitions reproduce the returned v-."""
+    R = vlib.coq_R
+    cases = [dict(eos="2step", Tn=0.6), dict(eos="2step", Tn=0.8), dict(eos="bag", psi=0.9, Tn=0.9)]
+    if not ctx.quick:
+        cases += [dict(eos="2step", Tn=0.5), dict(eos="2step", Tn=0.9),
+                  dict(eos="bag", psi=0.8, Tn=0.85), dict(eos="bag", psi=0.5, Tn=0.9)]
+    files = []
+    for k, case in enumerate(cases):
+        model = make_model(case)
+        h = new_hydro(model)
+        Tn = model.Tnucl
+        goals = []
+        cs_n = math.sqrt(float(model.csqLowT(Tn)))
+        for vw in (0.6 * cs_n, 0.5 * (cs_n + h.vJ)):
+            vp, vm, Tp, Tm = (float(x) for x in h.findMatching(vw))
+            vp2, vm2, Tp2, Tm2 = (float(x) for x in h.matchDeflagOrHyb(vw, vp))
+            tol = 36e-5
+            goals.append("Goal Rabs (fst (matching_fixed e0 %s %s %s %s %s %s)) <= %s /\\ "
+                         "Rabs (snd (matching_fixed e0 %s %s %s %s %s %s)) <= %s.\n"
+                         "Proof. split; ev. Qed." % (R(vw), R(vp), R(Tp2), R(Tm2), R(Tp2), R(Tm2),
+                                                    R(tol), R(vw), R(vp), R(Tp2), R(Tm2), R(Tp2),
+                                                    R(Tm2), R(tol)))
+            goals.append("Goal Rabs (snd (fst (fst (deflag_ret_fixed e0 %s %s %s %s))) - %s) <= %s."
+                         "\nProof. ev. Qed." % (R(vw), R(vp), R(Tp2), R(Tm2), R(vm2), R(1e-9)))
+            ctx.count("certified_eval", dict(case=case, vw=vw), bucket="deflag/hybrid")
+        for vw in (h.vJ * 1.02, 0.5 * (h.vJ + 1), 0.97):
+            vp, vm, Tp, Tm = (float(x) for x in h.matchDeton(vw))
+            sc = abs(deton_residual(model, vw, Tn))
+            goals.append("Goal Rabs (deton_residual e0 %s %s) <= %s.\nProof. ev. Qed." % (
+                R(vw), R(Tm), R(1e-5 * sc)))
+            goals.append("Goal Rabs (snd (fst (fst (deton_ret e0 %s %s))) - %s) <= %s.\n"
+                         "Proof. ev. Qed." % (R(vw), R(Tm), R(vm), R(1e-9)))
+            # the returned root is on the weak side of the Jouguet point: d(v+^2)/dT- < 0
+            goals.append("Goal vpDerivNum e0 %s * ((eHighT e0 (Tnucl e0) - eLowT e0 %s)) > 0.\n"
+                         "Proof. ev. Qed." % (R(Tm), R(Tm)))
+            goals.append("Goal Rabs (vJ_of_tm e0 %s - %s) <= %s.\nProof. ev. Qed." % (
+                R(Tm), R(vw), R(1e-6)))
+            ctx.count("certified_eval", dict(case=case, vw=vw), bucket="detonation")
+        text = EVAL_HDR % dict(defs=eos_coq_defs(case), Tn=R(Tn)) + "\n".join(goals) + "\n"
+        files.append((case, ctx.write("Cases/EvalEos_%d.v" % k, text)))
+    return files
+
+
+def certified_eval_start(ctx):
+    procs = []
+    for case, p in certified_eval_files(ctx):
+        procs.append((case, p, subprocess.Popen(
+            ["timeout", "900", "coqc"] + ctx.coq_args() + [p], cwd=ctx.bdir,
+            stdout=subprocess.PIPE, stderr=subprocess.PIPE, text=True)))
+    return procs
+
+
+def certified_eval_finish(ctx, procs):
+    for case, p, pr in procs:
+        out, err = pr.communicate()
+        if pr.returncode != 0:
+            ctx.broken.append("correspondence: certified evaluation %s" % os.path.basename(p))
+            ctx.log("certified evaluation failed for", json.dumps(case), vlib.tail(err, 8))
+
 # =======================================================================================
 
 def run(ctx):
@@ -648,12 +762,24 @@ def run(ctx):
             gen_ok = False
     proved = gen_ok and ctx.prove(extra=files, timeout=900)
     ctx.trusted += ["tools/pyrx.py + tools/gen_hydro_adm.py (AST translator, fail-closed)",
+                    "Interval tactic (certified evaluation of the generated formulas at solver "
+                    "outputs)",
                     "coq/Model/RangeLimit.v is hand-written; tied by exact vm_compute "
                     "correspondence on synthetic curves"]
+    procs = []
+    if proved:
+        try:
+            procs = certified_eval_start(ctx)
+        except Exception as ex:
+            import traceback
+            ctx.log("certified evaluation could not be set up", traceback.format_exc())
+            ctx.broken.append("correspondence: certified evaluation setup raised %r" % ex)
     ctx.log("decision-model correspondence ...")
     decision_correspondence(ctx)
     ctx.log("direct validation on real equations of state ...")
     direct_validation(ctx)
+    certified_eval_finish(ctx, procs)
+    ctx.log("certified evaluations done")
     ctx.cov["rule"] = (
         "decision model: random configurations (vJ, vMin, bracket, two range ends placed "
         "below / inside / exactly at / above the curve values at the window ends, both "
